@@ -23,8 +23,26 @@ use crate::{dbutil, watch};
 
 pub fn plan(tier: &str) -> u64 {
     match tier {
-        "quick" => 1 + 60,
-        _ => 2 + 1500,
+        "quick" => 1 + 60 + n_storm(tier),
+        _ => 2 + 1500 + n_storm(tier),
+    }
+}
+
+fn n_shape(tier: &str) -> u64 {
+    if tier == "quick" {
+        60
+    } else {
+        1500
+    }
+}
+
+/// seek storms (the layered layouts of C10's seek-storm family) with every get compared with the
+/// reference map
+fn n_storm(tier: &str) -> u64 {
+    if tier == "quick" {
+        32
+    } else {
+        400
     }
 }
 
@@ -279,8 +297,10 @@ pub fn run_case(tier: &str, seed: u64, idx: u64) -> CaseOut {
     let ng = n_gap(tier);
     if idx < ng {
         case_gap(&mut out, seed, idx);
-    } else {
+    } else if idx < ng + n_shape(tier) {
         case_shape(&mut out, tier, seed, idx - ng);
+    } else {
+        super::c10::case_seek_storm(&mut out, seed, idx - ng - n_shape(tier), "C07");
     }
     out
 }
